@@ -354,6 +354,54 @@ def sortedY (cs : Comps Nat) (c : List Nat) : List Nat :=
 
 end Sorted
 
+/-! ### the back-off stream of pass 2 and the zip of pass 3
+
+`BackoffManager` keeps the heads of all back-off input streams (every component, every order below
+the component's top order) in a priority queue ordered by `SuffixLexicographicLess`.
+`SameContext(c)` first calls `Enter(c)`: every queued n-gram smaller than `c` is *skipped* (one
+record `0.0` per distinct n-gram, written to the back-off stream of its order), the ones equal to
+`c` are entered; `SameContext` then writes the back-off of `c` itself.  `Finish()` skips what is left.
+Pass 3 sorts the probabilities of each order in `SuffixOrder` and zips them with that order's
+back-off stream (`ReunifyBackoff`), throwing if the lengths differ. -/
+section Pass3
+
+/-- `SuffixLexicographicLess`: lexicographic from the last word; a proper suffix comes first -/
+def sufLt (a b : List Nat) : Bool := lexLe a.reverse b.reverse && !(a == b)
+
+/-- `BackoffManager::Enter(c)` on the merged queue: `(skipped, remaining)` -/
+def enterQ (q : List (List Nat)) (c : List Nat) : List (List Nat) × List (List Nat) :=
+  (q.takeWhile (fun g => sufLt g c), (q.dropWhile (fun g => sufLt g c)).dropWhile (fun g => g == c))
+
+/-- n-grams of all back-off records written by pass 2, in time order, for the queue `q` and the
+contexts visited by `SameContext` in visiting order -/
+def backoffRecs : List (List Nat) → List (List Nat) → List (List Nat)
+  | q, [] => q
+  | q, c :: cs => (enterQ q c).1 ++ c :: backoffRecs (enterQ q c).2 cs
+
+/-- the merged queue: the distinct n-grams the components hold below their own top order -/
+def queueGrams (cs : Comps Nat) : List (List Nat) :=
+  (dedup (cs.flatMap (fun p =>
+    (p.2.entries.filter (fun e => decide (e.gram.length < p.2.order))).map (·.gram)))).mergeSort
+      (fun a b => lexLe a.reverse b.reverse)
+
+/-- contexts visited by `SameContext`, in visiting order (pre-order of the context tree) -/
+def ctxPre {W : Type} (Y : List W → List W) : Nat → List W → List (List W)
+  | 0, c => [c]
+  | d + 1, c => c :: (Y c).flatMap (fun y => ctxPre Y d (y :: c))
+
+/-- the back-off stream of order `k` after pass 2 -/
+def backoffStream (cs : Comps Nat) (k : Nat) : List (List Nat) :=
+  (backoffRecs (queueGrams cs)
+    ((sortedY cs []).flatMap (fun y => ctxPre (sortedY cs) (maxOrder cs - 2) [y]))).filter
+      (fun g => g.length == k)
+
+/-- the n-grams of the probability stream of order `k` after the `SuffixOrder` sort of pass 3 -/
+def probStream3 (cs : Comps Nat) (k : Nat) : List (List Nat) :=
+  (((unionGrams cs).map (fun g => g.1 ++ [g.2])).filter (fun g => g.length == k)).mergeSort
+    (fun a b => lexLe a.reverse b.reverse)
+
+end Pass3
+
 /-! ## Union vocabulary and renumbering (`MergeVocab`, `UniversalVocab`, `Renumber`) -/
 section Vocab
 
